@@ -14,6 +14,7 @@ with the forgeries left out (metamorphic reference).
 
 import hashlib
 import itertools
+import json
 
 from simkit import refcodec as rc
 
@@ -47,7 +48,7 @@ EXPECTED_PROBES = ["own_exchange_while_uninitialized", "accepted", "duplicate_re
                    "forgery_piv", "forgery_rekey", "forgery_pivct", "forgery_before_genuine", "restart",
                    "echo_challenge", "echo_recovered", "stale_echo_rejected", "bogus_echo_rejected", "near_max_seqno",
                    "in_window_unseen_accepted", "uninitialized_start", "window_size_1",
-                   "store_failure_during_strike_out", "store_failure_on_jump"]
+                   "store_failure_during_strike_out", "store_failure_on_jump", "file_backed_state_loss", "fs_echo_recovered"]
 
 MAX_SEQNO = 2 ** 40 - 1
 
@@ -69,7 +70,29 @@ def gen_ctx(r):
             "initialized": not r.chance(0.35)}
 
 
+def gen_fs(r):
+    """State loss as it really happens: a file-backed context (the library's FilesystemSecurityContext on the simulated
+    file system of C13) that is stopped uncleanly again and again; the Echo values are the ones the library issues
+    itself in each lifetime, the host's wall clock moves as the scenario says (not at all by default)."""
+    from . import c13
+    ops = []
+    for _ in range(r.randint(4, 16)):
+        k = r.weighted([(8, "req"), (5, "replay"), (4, "crash"), (1, "stop"), (2, "replayall"), (2, "nreq")])
+        if k == "req":
+            ops.append(["req", r.weighted([(3, "plain"), (5, "echo"), (2, "stale")])])
+        elif k == "replay":
+            ops.append(["replay", r.randint(0, 20)])
+        else:
+            ops.append([k])
+    return {"fs": {"cfg": "crash", "ctx": c13.gen_ctx(r, simple=r.chance(0.5)),
+                   "init": r.choice([None, {"next": r.choice([0, 7, 300]), "received": "unknown"}]),
+                   "ops": ops, "crash": {"mode": "none"},
+                   "wall_steps": [r.choice([0.0, 0.0, 0.0, 0.4, 1.0, 3.0, 3600.0, -1.0, -3600.0]) for _ in range(r.randint(1, 3))]}}
+
+
 def gen(r, tier):
+    if r.chance(0.12):
+        return gen_fs(r)
     ctx = gen_ctx(r)
     W = ctx["window"]
     restarts = r.choice([0, 0, 0, 1, 1, 2]) if not ctx["initialized"] or r.chance(0.3) else 0
@@ -161,6 +184,16 @@ def systematic(tier):
                     ops.append(["reset"])
                     ops.extend(["g", k] for k in (first,) + rest)
                 out.append({"ctx": _sys_ctx(W), "msgs": msgs, "ops": ops})
+    # state lost over and over: every lifetime challenges with its own Echo value; what one lifetime accepted (the
+    # request that carried that lifetime's Echo value included) is offered again to each later one
+    fsctx = {"alg": "AES-CCM-16-64-128", "sid": "01", "rid": "02", "idctx": None, "secret": "000102030405060708090a0b0c0d0e0f",
+             "salt": "", "window": 32, "chunk_start": None, "chunk_limit": None}
+    for steps in ([0.0], [0.4], [1.0], [-3600.0], [3600.0, -3600.0]):
+        for tail in ([["replayall"]], [["req", "stale"], ["replayall"]], [["req", "plain"], ["replayall"], ["req", "echo"], ["replayall"]]):
+            out.append({"fs": {"cfg": "crash", "ctx": fsctx, "init": {"next": 0, "received": "unknown"},
+                               "ops": [["req", "plain"], ["req", "echo"], ["req", "plain"], ["crash"]] + tail +
+                                      [["req", "plain"], ["req", "echo"], ["crash"]] + tail,
+                               "crash": {"mode": "none"}, "wall_steps": steps}})
     return out
 
 
@@ -194,6 +227,13 @@ def corpus():
 
 
 def shrink(scn):
+    if scn.get("fs"):
+        f = scn["fs"]
+        for i in range(len(f["ops"])):
+            yield {"fs": dict(f, ops=f["ops"][:i] + f["ops"][i + 1:])}
+        if any(f.get("wall_steps") or []):
+            yield {"fs": dict(f, wall_steps=[0.0])}
+        return
     ops = scn["ops"]
     msgs = scn["msgs"]
     used = {op[1] for op in ops if op[0] in ("g", "f")}
@@ -281,7 +321,36 @@ class Receiver:
         return "ok", None, (msg, rid)
 
 
+def execute_fs(sim, scn):
+    from simkit import oscore_env as env
+    from . import c13
+
+    osc = env.prepare()
+    run = c13.Run(osc, scn["fs"], None, scn.get("run_seed", 0)).run()
+    sig = hashlib.blake2b(digest_size=8)
+    sig.update(repr([op[0] for op in scn["fs"]["ops"]]).encode())
+    for e in run.log:
+        sim.log("ev", *e)
+        sig.update(repr(e[:3]).encode())
+    sim.probe("file_backed_state_loss")
+    for name in ("echo_demanded", "echo_recovered", "stale_echo_rejected"):
+        if run.probes.get(name):
+            sim.probe("fs_" + name, run.probes[name])
+    for (kind, detail) in run.violations:
+        if kind.startswith("C13/replay-accepted"):
+            sim.violation("C12/request-accepted-again-after-state-loss", dict(detail, seen_as=kind))
+        else:
+            sim.anomaly("c13-" + kind, json.dumps(detail)[:200])
+    for (kind, detail) in run.anomalies:
+        sim.anomaly(kind, detail)
+    sim.nontrivial = True
+    sim.extra_faults = {"state_loss": run.stats.get("op_crash", 0)} if run.stats.get("op_crash") else {}
+    sim.signature = sig.hexdigest()
+
+
 def execute(sim, scn):
+    if scn.get("fs"):
+        return execute_fs(sim, scn)
     from simkit import oscore_env as env
 
     osc = env.prepare()
